@@ -16,7 +16,7 @@ Run *g_run = nullptr;
 AllocLedger g_alloc;
 
 const char *step_name[S_NKINDS] = {"?", "req", "adv", "stall", "cancel", "netop", "fault", "forge", "setsrv", "reinit", "chunk", "partition", "srcaddr",
-                                   "cookiectl", "file", "inotify", "waitempty", "think", "dup", "saveopt", "csvround", "sortlist", "local", "queryinfo", "heal"};
+                                   "cookiectl", "file", "inotify", "waitempty", "think", "dup", "saveopt", "csvround", "sortlist", "local", "queryinfo", "heal", "zerodgram"};
 const char *req_kind_name[K_NKINDS] = {"send_dnsrec", "send", "query_dnsrec", "query", "search_dnsrec", "search", "getaddrinfo", "gethostbyname", "gethostbyaddr", "getnameinfo"};
 
 extern "C" {
@@ -202,6 +202,7 @@ void Run::setup_world() {
   W.min_delay_us = cfg.min_delay; W.max_delay_us = cfg.max_delay < cfg.min_delay ? cfg.min_delay : cfg.max_delay;
   W.faults_enabled = cfg.faults != 0;
   W.stat["cfg.tfo"] = cfg.tfo;
+  W.stat["cfg.default_chunking"] = (cfg.knob("default_chunking") && !cfg.knob("reference") && cfg.faults) ? 1 : 0;
   for (auto &s : cfg.servers) {
     ServerState st;
     st.cfg.addr = addr_parse(s.ip, (uint16_t)s.udp_port);
@@ -571,6 +572,19 @@ int64_t Run::hint_time(int chan) {
   return W.now_us + (int64_t)r->tv_sec * 1000000 + r->tv_usec;
 }
 
+bool Run::ready_now(int chan) {
+  Chan &c = chans[(size_t)chan];
+  if (!c.alive) return false;
+  if (c.pending_write) return true;
+  for (auto &p : c.interest) {
+    VFd *v = W.get(p.first);
+    if (!v || !v->open) continue;
+    if (p.second.first && (W.readable(*v) || W.errored(*v))) return true;
+    if (p.second.second && W.writable(*v)) return true;
+  }
+  return false;
+}
+
 void Run::process_ready(int chan, int subset_sel, bool skip_non_fd) {
   Chan &c = chans[(size_t)chan];
   if (!c.alive || !c.ch) return;
@@ -726,6 +740,8 @@ void Run::exec_step(const Step &s) {
       if (s.a == 2) t = th >= 0 ? th : tf;
       else { t = tf; if (th >= 0 && (t < 0 || th < t)) t = th; }
       if (s.a == 3) t = W.now_us;
+      // level-triggered loop: a descriptor the application watches that is ready right now makes the wait return at once
+      if (s.a != 2 && ready_now(chan)) { t = W.now_us; note("adv_ready_now"); }
       if (t < 0) { note("adv_idle"); if (outstanding() == 0) break; t = W.now_us; }
       if (s.a == 1) t += s.c;
       if (t == th) note("adv_to_hint"); else if (t == tf) note("adv_to_flight");
@@ -763,7 +779,7 @@ void Run::exec_step(const Step &s) {
       break;
     }
     case S_FAULT: {
-      if (!W.faults_enabled) break;
+      if (!W.faults_enabled || cfg.knob("reference")) break;
       static const int errs[FC_NCLASSES][6] = {
         {EMFILE, ENOBUFS, EAFNOSUPPORT, EMFILE, ENFILE, EACCES}, {EINVAL, ENOPROTOOPT, EINVAL, ENOBUFS, EINVAL, ENOPROTOOPT}, {EADDRINUSE, EADDRNOTAVAIL, EADDRINUSE, EACCES, EADDRNOTAVAIL, EINVAL},
         {ECONNREFUSED, ENETUNREACH, EHOSTUNREACH, EINTR, EADDRNOTAVAIL, ETIMEDOUT}, {ENOBUFS, EBADF, ENOBUFS, ENOBUFS, EINVAL, ENOBUFS}, {EAGAIN, EINTR, ECONNREFUSED, EPIPE, ENETDOWN, ECONNRESET},
@@ -791,6 +807,7 @@ void Run::exec_step(const Step &s) {
       for (auto &sv : W.servers) sv.cfg.partitioned = false;
       break;
     case S_CHUNK: {
+      if (cfg.knob("reference")) break;
       std::vector<int> os;
       for (int fd : W.open_sockets()) if (W.get(fd)->kind == FD_TCP) os.push_back(fd);
       if (os.empty()) break;
